@@ -163,6 +163,15 @@ func (w *watches) remove(fd int, path string) bool {
 
 	delete(w.wd, fd)
 	delete(w.seen, path)
+	if isDir {
+		// Entries we know about but don't watch (sockets, named pipes,
+		// unreadable files) have no watch of their own to clean up after them.
+		for p := range w.seen {
+			if filepath.Dir(p) == path {
+				delete(w.seen, p)
+			}
+		}
+	}
 	return isDir
 }
 
@@ -604,6 +613,11 @@ func (w *kqueue) watchDirectoryFiles(dirPath string) error {
 				return fmt.Errorf("%q: %w", path, err)
 			}
 		}
+		if cleanPath == "" {
+			// Not watched (socket or named pipe), but it does exist: remember
+			// that, or it's announced as "new" on every change of the directory.
+			cleanPath = filepath.Clean(path)
+		}
 
 		w.watches.markSeen(cleanPath, true)
 	}
@@ -657,9 +671,13 @@ func (w *kqueue) sendCreateIfNew(path string, fi os.FileInfo) error {
 	}
 
 	// Like watchDirectoryFiles, but without doing another ReadDir.
+	orig := path
 	path, err := w.internalWatch(path, fi)
 	if err != nil {
 		return err
+	}
+	if path == "" {
+		path = orig // Not watched (socket or named pipe), but we've seen it now.
 	}
 	w.watches.markSeen(path, true)
 	return nil
